@@ -231,17 +231,29 @@ public:
     CXX20_REQUIRES(std::same_as<T, decltype(std::declval<Fn>()())>)
     promise_extra_storage(Fn &&fn):_factory(std::forward<Fn>(fn)) {}
 
+    static_assert(alignof(T) <= __STDCPP_DEFAULT_NEW_ALIGNMENT__, "extra object is over-aligned for the storage");
+
+    ///offset of the extra object behind the frame: next multiple of its alignment
+    static constexpr std::size_t extra_offset(std::size_t sz) {
+        return (sz + alignof(T) - 1) / alignof(T) * alignof(T);
+    }
+    ///size requested from the underlying storage; kept a multiple of the pointer size, so
+    ///anything the underlying storage stores behind the block is aligned as well
+    static constexpr std::size_t total_size(std::size_t sz) {
+        return (extra_offset(sz) + sizeof(T) + sizeof(void *) - 1) / sizeof(void *) * sizeof(void *);
+    }
+
     void *alloc(std::size_t sz) {
-        void *ptr = Alloc::alloc(sz+sizeof(T));
-        void *inv = static_cast<std::uint8_t *>(ptr)+sz;
+        void *ptr = Alloc::alloc(total_size(sz));
+        void *inv = static_cast<std::uint8_t *>(ptr)+extra_offset(sz);
         inventory = new(inv) T(_factory());
        return ptr;
     }
 
     static void dealloc(void *ptr, std::size_t sz) {
-        T *x = reinterpret_cast<T *>(static_cast<std::uint8_t *>(ptr)+sz);
+        T *x = reinterpret_cast<T *>(static_cast<std::uint8_t *>(ptr)+extra_offset(sz));
         x->~T();
-        Alloc::dealloc(ptr,sz+sizeof(T));
+        Alloc::dealloc(ptr,total_size(sz));
     }
 
     T * inventory;
